@@ -22,6 +22,7 @@
 import YalafiVerif.Proofs.Scanner
 import YalafiVerif.Proofs.Lines
 import YalafiVerif.Properties.PlainVanishStmt
+import YalafiVerif.Properties.PlainMixStmt
 namespace Yalafi
 
 theorem C05_scanSpace_kind (start : Nat) (rest : Str) :
